@@ -13,7 +13,7 @@ RULE = ('per case 1-4 received bundles, each with one of the 2^5 combinations of
         'are decoded by the reference decoder and matched to their subject. Non-trivial: at least one report flag set with a report-to '
         'endpoint; distinct = digest of the case descriptors.')
 COMPONENTS = bc.COMPONENTS
-PROBES = ('out.deliver', 'out.forward', 'out.forward-frag', 'out.forward-impossible', 'out.forward-cl-error', 'out.delete', 'out.noroute', 'out.secfail', 'out.duplicate', 'rpt.seen', 'rpt.with_time',
+PROBES = ('out.deliver', 'out.forward', 'out.forward-frag', 'out.forward-impossible', 'out.forward-cl-error', 'out.forward-lookalike', 'out.delete', 'out.noroute', 'out.secfail', 'out.duplicate', 'rpt.seen', 'rpt.with_time',
           'probe.requested_but_missing')
 ASSUMPTIONS = ['a transmit route towards the report-to endpoint always exists', 'the statement is read as "only if": a missing report is counted as a probe, not a violation']
 CHUNK = 25
@@ -27,12 +27,13 @@ OCCURS = {
     'forward-frag': {'received', 'forwarded'},
     'forward-impossible': {'received', 'deleted'},
     'forward-cl-error': {'received', 'deleted'},
+    'forward-lookalike': {'received', 'forwarded'},
     'delete': {'received', 'deleted'},
     'noroute': {'received'},
     'secfail': {'received', 'deleted'},
     'duplicate': set(),
 }
-DEST = {'deliver': 'dtn://n1/app', 'forward': 'dtn://far/app', 'forward-frag': 'dtn://mtu/app', 'forward-impossible': 'dtn://tiny/app', 'forward-cl-error': 'dtn://broken/app', 'delete': 'dtn://drop/app', 'noroute': 'dtn://nowhere/app',
+DEST = {'deliver': 'dtn://n1/app', 'forward': 'dtn://far/app', 'forward-frag': 'dtn://mtu/app', 'forward-impossible': 'dtn://tiny/app', 'forward-cl-error': 'dtn://broken/app', 'forward-lookalike': 'dtn://n10/app', 'delete': 'dtn://drop/app', 'noroute': 'dtn://nowhere/app',
         'secfail': 'dtn://n1/app', 'duplicate': 'dtn://n1/app'}
 
 
@@ -43,9 +44,9 @@ def gen(ch, tier):
         for bit in (rfc9171.FLAG_RPT_RECEPTION, rfc9171.FLAG_RPT_FORWARD, rfc9171.FLAG_RPT_DELIVERY, rfc9171.FLAG_RPT_DELETION, rfc9171.FLAG_STATUS_TIME):
             if ch.coin('flag', 1, 2):
                 flags |= bit
-        cases.append(dict(outcome=ch.choice('outcome', ('deliver', 'forward', 'forward-frag', 'forward-impossible', 'forward-cl-error', 'delete', 'noroute', 'secfail', 'duplicate')),
+        cases.append(dict(outcome=ch.choice('outcome', ('deliver', 'forward', 'forward-frag', 'forward-lookalike', 'forward-impossible', 'forward-cl-error', 'delete', 'noroute', 'secfail', 'duplicate')),
                           flags=flags, report_to=ch.choice('rpt', ('dtn://rpt/', 'dtn://rpt/', 'dtn:none', 'ipn:9.1')),
-                          source=ch.choice('src', ('dtn://src/', 'ipn:3.1')), seqno=cix, plen=ch.choice('plen', (5, 40, 400)), tag=cix + 1,
+                          source=ch.choice('src', ('dtn://src/', 'ipn:3.1', 'ipn:977000.3.1')), seqno=cix, plen=ch.choice('plen', (5, 40, 400)), tag=cix + 1,
                           crc=ch.choice('crc', (1, 2))))
     return dict(scenario='bp_reports', cases=cases)
 
@@ -68,7 +69,7 @@ class Run:
 
 def execute(plan, sched, verbose=False):
     nodes = {'n1': dict(node_id='dtn://n1/',
-                        rx_routes=[['^dtn://n1/.*$', 'deliver'], ['^dtn://far/.*$', 'forward'], ['^dtn://mtu/.*$', 'forward'], ['^dtn://tiny/.*$', 'forward'], ['^dtn://broken/.*$', 'forward'], ['^dtn://drop/.*$', 'delete']],
+                        rx_routes=[['^dtn://n1/.*$', 'deliver'], ['^dtn://far/.*$', 'forward'], ['^dtn://mtu/.*$', 'forward'], ['^dtn://tiny/.*$', 'forward'], ['^dtn://broken/.*$', 'forward'], ['^dtn://n10/.*$', 'forward'], ['^dtn://drop/.*$', 'delete']],
                         tx_routes=[['^dtn://mtu/.*$', 'dtn://next/', 300, None], ['^dtn://tiny/.*$', 'dtn://next/', 30, None], ['^dtn://broken/.*$', 'dtn://dead/', None, 'FAIL'], ['.*', 'dtn://next/', None, None]])}
     har = bp_net.BpHarness(dict(nodes=nodes), sched, verbose)
     run = Run()
@@ -115,7 +116,7 @@ def _drive(run, plan, har):
         if case['outcome'] == 'forward-cl-error' and others:
             run.viols.append(('setup', 'failed-forward-sent', '%s: something left the node although the convergence layer refused it' % where))
             return
-        if case['outcome'] in ('forward', 'forward-frag') and not others:
+        if case['outcome'] in ('forward', 'forward-frag', 'forward-lookalike') and not others:
             run.viols.append(('setup', 'not-forwarded', '%s: the bundle did not leave the node at all (recv error %s, actions %s)' % (where, rec['error'], rec['actions'])))
             return
         if not reports:
